@@ -601,7 +601,16 @@ func (prop) Run(c core.Case) core.Outcome {
 		var want []byte
 		for _, a := range f.Areas {
 			if a.Flags&fmap.FmapAreaStatic != 0 {
-				want = append(want, img[a.Offset:uint64(a.Offset)+uint64(a.Size)]...)
+				lo, hi := uint64(a.Offset), uint64(a.Offset)+uint64(a.Size)
+				if a.Size == 0 {
+					continue // an empty area contributes nothing, wherever its offset points
+				}
+				if hi > uint64(len(img)) {
+					// Checksum returned a sum although a static area is not inside the image
+					O("checksum-area-inside-image", "error", fmt.Sprintf("sum returned; area [%#x,%#x) image %#x", lo, hi, len(img)))
+					continue
+				}
+				want = append(want, img[lo:hi]...)
 			}
 		}
 		O("checksum-static", core.Hex(want), core.Hex(sum))
